@@ -9,6 +9,10 @@ spends one unit, so a bracket level costs four: that is the weight of `[` in `cA
 namespace Octave
 namespace Parser
 
+-- the proofs below execute every path of large `do` blocks symbolically: 5× the default budget, so that no proof
+-- sits at the edge of the deterministic timeout
+set_option maxHeartbeats 1000000
+
 theorem wtA_pos_of_not_end {t : TT} (h : ¬(t == .listEnd || t == .eof || t == .envelopeEnd) = true) :
     1 ≤ wtA t := by
   cases t <;> first | decide | (exact absurd rfl h)
